@@ -158,5 +158,6 @@ pub fn run(e: &'static Engine) {
     e.par(jobs);
     let _ = Level::L;
     e.put("cells_total", 480.into());
+    super::common::extreme_parts(e, check);
     e.set_exhaustive(false, "configuration cells are enumerated completely (160 version/level pairs x 9 mask settings; thorough: x 12 mode/version settings); payload content and length are sampled");
 }
